@@ -141,7 +141,11 @@ def check_pair(case, stats):
     d, k1, k2 = case["dialect"], case["k1"], case["k2"]
     D = DIALECTS[d]
     l1, l2, l3 = k1 + "one", k2 + "two", k1 + "three"
-    text = "# language: %s\n%s: f\n %s: s\n  %s\n  %s\n  %s\n" % (d, D["feature"][0], D["scenario"][0], l1, l2, l3)
+    lines_ = [l1, l2, l3]
+    if k1 != k2 and (k1.startswith(k2) or k2.startswith(k1)):
+        # keywords one of which prefixes the other: several uses of the one, then the other (how often a keyword was used plays no part)
+        lines_ = [k1 + "a", k1 + "b", k1 + "c", k1 + "d", k2 + "e", k1 + "f", k2 + "g"]
+    text = "# language: %s\n%s: f\n %s: s\n" % (d, D["feature"][0], D["scenario"][0]) + "".join("  %s\n" % l_ for l_ in lines_)
     stats.case((d, k1, k2), k1 != k2 and (k1.startswith(k2) or k2.startswith(k1)), sample=case)
     r = gh.parse(text, "en" if d != "en" else "fr")
     if r[0] != "ok":
@@ -149,11 +153,11 @@ def check_pair(case, stats):
     steps = r[1]["feature"]["children"][0]["scenario"]["steps"]
     got = [(s_["keyword"], s_["keywordType"], s_["text"]) for s_ in steps]
     want = []
-    for line in (l1, l2, l3):
+    for line in lines_:
         kw, ty = expected_step(d, line)
         want.append((kw, ty, trim(line[len(kw):])))
     if got != want:
-        raise Violation(case, "%s steps %r: AST (keyword, type, text) = %r, the language table gives %r" % (d, [l1, l2, l3], got, want))
+        raise Violation(case, "%s steps %r: AST (keyword, type, text) = %r, the language table gives %r" % (d, lines_, got, want))
 
 
 def unit_pairs(a):
